@@ -171,7 +171,7 @@ def run(tier: str) -> Run:
 
     # ---- R1 chunk values ----------------------------------------------------------
     r1 = run.rule('R1', 'every string value written in a tag-value pair is read back as exactly that one value', 1000)
-    cfi = repo.func(MOD, '_quotes_for_string_value')
+    cwhere = where_of(repo, MOD, '_quotes_for_string_value', '_format_value', 'Chunk.write')
     classes: dict[str, list] = {}
     n = 0
     for s in strings:
@@ -189,7 +189,7 @@ def run(tier: str) -> Run:
     run.extra['chunk_strings_enumerated'] = n
     for feat, bad in sorted(classes.items()):
         s, text, why = bad[0]
-        r1.fail(f'pair value [{feat}] ({len(bad)} strings)', loc(cfi), {'example_value': s, 'written': text, 'problem': why,
+        r1.fail(f'pair value [{feat}] ({len(bad)} strings)', cwhere, {'example_value': s, 'written': text, 'problem': why,
                                                                         'more_examples': [b[0] for b in bad[1:6]]}, key=f'value:{feat}')
     for k in range(n - sum(len(b) for b in classes.values())):
         pass
